@@ -85,6 +85,61 @@ def gen_messages(ctx):
     return msgs
 
 
+def gen_call_history(r):
+    """a short sequence of crc7 calls: ["ok", msg] a valid message; ["bad", prefix, junk] a message whose element after the prefix is
+    rejected (out of range / not an int: IndexError or TypeError also on the unchanged library); ["nested", outer, k, inner] a call on
+    a lazy iterable that itself calls crc7(inner) after yielding k bytes of outer"""
+    h = []
+    for _ in range(r.choice([2, 2, 3, 4])):
+        x = r.random()
+        m = [r.randrange(256) for _ in range(r.choice([0, 1, 2, 3, 8]))]
+        if x < 0.5:
+            h.append(["ok", m])
+        elif x < 0.8:
+            h.append(["bad", m, r.choice([300, 256, -1, None, "x", 2.5])])
+        else:
+            inner = [r.randrange(256) for _ in range(r.choice([1, 2, 5]))]
+            h.append(["nested", m, r.randrange(len(m) + 1), inner])
+    h.append(["ok", [r.randrange(256) for _ in range(r.choice([0, 1, 2, 6]))]])
+    return h
+
+
+def run_call_history(mod, h):
+    """-> None, or what is wrong"""
+    for i, c in enumerate(h):
+        if c[0] == "ok":
+            got = call_raw(mod, list(c[1]))
+            if got != ("ok", ref_crc(c[1])):
+                return "call %d: crc7(%r) = %r after the calls %r, bit-serial CRC-7 gives %d" % (i, c[1], got, h[:i], ref_crc(c[1]))
+        elif c[0] == "bad":
+            try:
+                mod.crc7(list(c[1]) + [c[2]])
+            except Exception:       # noqa: rejected, as expected
+                pass
+        else:
+            outer, k, inner = c[1], c[2], c[3]
+            res = {}
+
+            def lazy():
+                for j, b in enumerate(outer):
+                    if j == k:
+                        res["inner"] = call_raw(mod, list(inner))
+                    yield b
+                if k >= len(outer):
+                    res["inner"] = call_raw(mod, list(inner))
+            try:
+                got = ("ok", mod.crc7(lazy()))
+            except Exception as e:      # noqa
+                got = ("raised", type(e).__name__)
+            if res.get("inner") != ("ok", ref_crc(inner)):
+                return "call %d: crc7(%r) evaluated while crc7 is consuming %r gives %r, bit-serial CRC-7 gives %d" % (
+                    i, inner, outer, res.get("inner"), ref_crc(inner))
+            if got != ("ok", ref_crc(outer)):
+                return "call %d: crc7 of a lazy iterable over %r (during which crc7(%r) was evaluated) = %r, bit-serial CRC-7 gives %d" % (
+                    i, outer, inner, got, ref_crc(outer))
+    return None
+
+
 def oracle_search(mod, ctx, msgs):
     """Concrete failing inputs of the PROPERTY on the implementation."""
     out = []
@@ -119,6 +174,13 @@ def oracle_search(mod, ctx, msgs):
             out.append({"kind": "history", "what": "crc7 of a %s reused after flipping bit %d of byte %d in place: %r, bit-serial CRC-7 of %r gives %d "
                         "(first call on %r gave %r)" % (type(buf).__name__, bit, i, g2, list(buf), ref_crc(list(buf)), first, g1),
                         "fingerprint": "crc7-stale-result-on-reused-buffer", "first": first, "flip": [i, bit], "buffer_type": type(buf).__name__})
+            return out
+    # the result depends on the message only: not on earlier calls, rejected calls or calls still in progress
+    for _ in range(1500):
+        h = gen_call_history(rr)
+        vd = run_call_history(mod, h)
+        if vd:
+            out.append({"kind": "calls", "what": vd, "fingerprint": "crc7-depends-on-earlier-calls", "history": h})
             return out
     # detection / linearity on the implementation
     r = ctx.rng
@@ -358,6 +420,15 @@ def replay(ctx, obj):
         if g2 != ("ok", ref_crc(list(buf))) or g1 != ("ok", ref_crc(first)):
             print("VIOLATION property=C20 replay=(replayed)")
             return 1
+        return 0
+    if obj.get("kind") == "calls":
+        vd = run_call_history(mod, obj["history"])
+        print("calls:", obj["history"])
+        if vd:
+            print("violates C20:", vd)
+            print("VIOLATION property=C20 replay=(replayed)")
+            return 1
+        print("every call returns the bit-serial CRC-7 of its own message")
         return 0
     if obj.get("kind") == "input" and "flipped_bits" not in obj:
         m = obj["input"]
